@@ -46,6 +46,31 @@ def broken_obligations(build, engine, prop):
                 broken.append({"theorem": f"Finam.Props.Gen.{name}", "message": msg[:300]})
         elif file.endswith("Generated.lean"):
             broken.append({"theorem": "Generated.lean does not compile", "message": msg[:300]})
+        elif "/Translated/" in file or re.search(r"Props/Tr\w+\.lean$", file):
+            # a translated function no longer compiles / no longer equals the hand-written model
+            from . import trspecs
+
+            src_lines = []
+            try:
+                src_lines = open(os.path.join(common.LEAN, file)).read().splitlines()
+            except OSError:
+                pass
+            if "/Translated/" in file:
+                fname = os.path.basename(file)[:-5]
+                specs = [sp for sp in trspecs.SPECS if sp["lean"] == fname]
+                if any(prop in sp["props"] for sp in specs):
+                    broken.append({"theorem": f"translated function {fname} does not compile", "message": msg[:300]})
+            else:
+                group = os.path.basename(file)[2:-5]
+                if any(prop in sp["props"] for sp in trspecs.SPECS if sp["group"] == group):
+                    name = None
+                    for i in range(min(line, len(src_lines)) - 1, -1, -1):
+                        m = re.match(r"\s*theorem\s+(\S+)", src_lines[i])
+                        if m:
+                            name = m.group(1)
+                            break
+                    broken.append({"theorem": f"Props.Tr{group}.{name or '?'} (translated source vs model)",
+                                   "message": msg[:300]})
         else:
             mods = getattr(engine, "MODULES", [])
             stem = file.replace("FinamModel/", "").replace(".lean", "").replace("/", ".")
@@ -87,8 +112,13 @@ def _run_check(ctx, engine):
     if not build.driver_ok and getattr(engine, "NEEDS_DRIVER", True):
         raise MachineryError("Lean driver does not build:\n" + build.log[-3000:])
     # 1. audit
+    from . import trspecs
+    tr_specs = [sp for sp in trspecs.SPECS if prop in sp["props"]]
+    tr_groups = sorted({sp["group"] for sp in tr_specs})
+    tr_deps = [f"Tr{g}" for g in tr_groups]
     own = ([f"Props.{prop}", "Props.Gen", "Basic", "Generated"] + list(getattr(engine, "MODULES", []))
-           + [f"Props.{d}" for d in getattr(engine, "THEOREM_DEPS", [])])
+           + [f"Props.{d}" for d in getattr(engine, "THEOREM_DEPS", [])]
+           + (["PyPrelude"] if tr_specs else []) + [f"Props.{d}" for d in tr_deps])
     hits = common.grep_forbidden(own)
     if hits:
         raise MachineryError(f"forbidden tokens in Lean sources: {hits}")
@@ -102,10 +132,18 @@ def _run_check(ctx, engine):
         )
         if p.returncode != 0:
             broken = [{"theorem": f"module Props.{prop}", "message": (p.stdout + p.stderr)[-300:]}]
-    thms_all = common.audit(prop, getattr(engine, "THEOREM_DEPS", [])) if not any(b["theorem"].startswith("module") for b in broken) else {}
+    tr_broken = any("translated" in b["theorem"] for b in broken)
+    audit_deps = list(getattr(engine, "THEOREM_DEPS", [])) + ([] if tr_broken else tr_deps)
+    thms_all = common.audit(prop, audit_deps) if not any(b["theorem"].startswith("module") for b in broken) else {}
     theorems = common.theorems_of(thms_all, prop)
     for dep in getattr(engine, "THEOREM_DEPS", []):
         theorems.update(common.theorems_of(thms_all, dep))
+    # equivalence theorems of the translated functions owned by this property (whatever namespace they live in)
+    tr_names = {sp["lean"] for sp in tr_specs}
+    for n, a in thms_all.items():
+        last = n.split(".")[-1]
+        if last.startswith("tr_") and last[3:] in tr_names:
+            theorems[n] = a
     bad_ax = {n: a for n, a in theorems.items() if not set(a) <= common.ALLOWED_AXIOMS}
     if bad_ax:
         raise MachineryError(f"theorems with unexpected axioms: {bad_ax}")
@@ -204,8 +242,15 @@ def _run_check(ctx, engine):
             print(f"VIOLATION property={prop} replay={path} no-failing-input-found")
             violations = 1
         exit_code = 1
+    if tr_specs:
+        res.extra["translated_functions"] = [
+            dict(name=sp["lean"], **{k: v for k, v in common.TRANSLATION_STATUS.get(sp["lean"], {}).items() if k != "props"})
+            for sp in tr_specs]
     common.write_evidence(ctx, res, theorems, gen_ob, broken, violations, known_printed, checker_cmd,
-                          getattr(engine, "TRUSTED", ()))
+                          tuple(getattr(engine, "TRUSTED", ())) + ((
+                              "harness/py2lean.py: the translator's reading of the Python subset (functional translation of "
+                              "loops / state, Python built-ins as FinamModel/PyPrelude.lean) for the functions listed under "
+                              "translated_functions",) if tr_specs else ()))
     print(f"{prop} {ctx.tier} seed={ctx.seed}: {res.evaluations} cases, "
           f"{len(res.nontrivial)} distinct non-trivial, {len(theorems)} theorems, "
           f"{len(res.divergences)} divergences, {len(new)} oracle failures, "
